@@ -4,6 +4,8 @@ C02 — Device memory behaves like an aliased byte array; misuse raises errors.
 Model: OccaModel/Mem.lean (the host backends' occa::memory / modeMemory_t / serial::buffer, repaired
 code: fixes F03, F04, F35, F36, F37).  Lemmas: OccaProofs/Lemmas/Mem.lean, MemReject.lean.
 
+Tie (T): C02_guards_as_modelled — the regenerated guard table of the C++ equals the transcribed one.
+
 Statement of the property, clause by clause:
   (a) every read returns what a byte-array model predicts            C02_views_in_bounds, C02_handle_in_bounds,
       (reads/writes go to exactly the addressed bytes of the buffer)  C02_write_read, C02_copyTo_reads, C02_copy_moves_bytes
@@ -17,9 +19,19 @@ Statement of the property, clause by clause:
 import OccaProofs.Lemmas.Mem
 import OccaProofs.Lemmas.MemReject
 import OccaProofs.Lemmas.MemAlias
+import OccaProofs.Lemmas.MemGuards
 
 namespace Occa.Mem.C02
 open Occa.Mem
+
+/-! ### tie: the model's guards are the guards of the current source -/
+
+/-- The guard events (early returns, initialisation asserts, byte/offset computations, OCCA_ERROR
+    conditions, memcpy/memmove) of every memory function, regenerated from /repo's current sources,
+    are exactly — and in exactly the order — those the model was transcribed from; the OpenMP
+    device still inherits the serial memory code. -/
+theorem C02_guards_as_modelled :
+    Occa.Gen.memGuards = guardsModelled ∧ Occa.Gen.ompUsesSerialMemory = true := by decide
 
 /-! ### (a) every view stays inside its buffer, over all histories -/
 
